@@ -165,3 +165,12 @@ Fn('ppMinPoly', 'void', 'b:out[WOB(l+1)] a:in[WOB(2*l)] l:len stack:stack[ppMinP
    lambda N, W: [dict(l=l) for l in sorted(set([1, 2, 3, 7, 8, 15, 16, 17, 31, 32, 33, 63, 64, 65, 100, 127, 128, 129] + [W * j // 2 for j in range(1, N + 1)]))
                  if (2 * l + W - 1) // W <= max(N, 2)],
    dict(a=D_list(seq_dom)), f=f_minpoly, **G)
+
+def _cls_ppinv(v):
+    if v.a == 0: return 'a=0'
+    if P.gcd(v.a, v.mod) != 1: return 'gcd(a,mod)!=1'
+    return None
+CAT['ppInvMod'].cls = CAT['ppDivMod'].cls = _cls_ppinv
+for _n in ('ppDiv', 'ppMod'):
+    CAT[_n].cls = lambda v: 'deg(b)=0' if v.b == 1 else None
+CAT['ppRed'].cls = lambda v: 'mod=1' if v.mod == 1 else None
